@@ -277,3 +277,67 @@ func zzH_c10_build2() {
 	}
 	vReach("end")
 }
+
+// H10-pool-identity: a certificate pool identifies certificates by their encoding, not by name
+// or key: AddCert keeps two distinct certificates that share subject and key (a renewed or
+// cross-signed CA certificate), and Verify treats a leaf as "one of the trusted roots" only
+// when that very certificate was supplied as a root - a different certificate with a root's
+// name and key still needs a valid chain.
+//
+//verif:property C10
+//verif:expect-reach end accepted rejected
+//verif:bound root R in the root pool; leaf X with R's subject and R's public key whose encoding equals R's or differs in its one symbolic byte; X's issuer R's name or another name; the signature relation between X and R symbolic; R valid, X valid
+//verif:outside signature algorithms ((*Certificate).CheckSignature stubbed by the relation)
+//verif:stub (*github.com/tjfoc/gmsm/x509.Certificate).CheckSignature zzStubPKISig
+//verif:stub net.ParseIP zzStubParseIP
+//verif:unwind 40
+func zzH_c10_pool_identity() {
+	const nR, nOther = 0x13, 0x17
+	for i := 1; i <= 4; i++ {
+		for j := 1; j <= 4; j++ {
+			zzPKISig[i][j] = vBool("sig")
+		}
+	}
+	mk := func(id byte, issuer byte) *Certificate {
+		c := &Certificate{Raw: []byte{id}, RawTBSCertificate: []byte{id}, RawSubject: []byte{nR}, RawIssuer: []byte{issuer},
+			RawSubjectPublicKeyInfo: []byte{0xAA}, Version: 3, PublicKeyAlgorithm: ECDSA, MaxPathLen: -1, BasicConstraintsValid: true, IsCA: true}
+		c.NotBefore, c.NotAfter = time.Unix(1000, 0), time.Unix(2000, 0)
+		return c
+	}
+	R := mk(3, nR)
+	same := vChoice("sameEncoding", 2) == 1
+	xid := byte(1)
+	if same {
+		xid = 3
+	}
+	xIssuer := []byte{nR, nOther}[vChoice("X.issuer", 2)]
+	X := mk(xid, xIssuer)
+	roots := NewCertPool()
+	roots.AddCert(R)
+	vAssert("contains-iff-same-encoding", roots.contains(X) == same)
+	other := NewCertPool()
+	other.AddCert(R)
+	other.AddCert(X)
+	want := 2
+	if same {
+		want = 1
+	}
+	vAssert("addcert-keeps-distinct-certificates-with-one-name-and-key", len(other.certs) == want)
+	opts := VerifyOptions{Roots: roots, Intermediates: NewCertPool(), CurrentTime: time.Unix(1500, 0), KeyUsages: []ExtKeyUsage{ExtKeyUsageAny}}
+	chains, err := X.Verify(opts)
+	// X is trusted by itself only as the supplied root; otherwise it needs R as issuer and R's signature
+	chained := xIssuer == nR && zzPKISig[1][3]
+	if err == nil {
+		vReach("accepted")
+	} else {
+		vReach("rejected")
+	}
+	vAssert("same-name-and-key-is-not-the-root", (err == nil) == (same || chained))
+	if err == nil {
+		for _, ch := range chains {
+			last := ch[len(ch)-1]
+			vAssert("returned-chain-ends-in-a-supplied-root", last == R || (same && last.Equal(R)))
+		}
+	}
+	vReach("end")
+}
